@@ -322,7 +322,8 @@ def main():
     t0 = time.time()
     os.makedirs(OUT, exist_ok=True)
     os.makedirs(EVID, exist_ok=True)
-    props = json.load(open(os.path.join(ROOT, "units", "properties_map.json")))
+    # VERIF_MAP: development only (an alternative unit map while a unit is being written)
+    props = json.load(open(os.environ.get("VERIF_MAP") or os.path.join(ROOT, "units", "properties_map.json")))
     if a.property not in props:
         print(f"UNDECIDED: property {a.property} has no registered check")
         return 2
